@@ -90,7 +90,7 @@ fn check_line(l: &[u8], parse_plain: bool, res: &mut CaseResult) {
             // has_unprintable <=> escaped_printable changed something
             let hp = esc.has_unprintable(l);
             let changed = esc.escaped_printable(l) != lossy;
-            if hp != changed && std::str::from_utf8(l).is_ok() {
+            if hp != changed {
                 res.findings.push(Finding::new("C11", "has-unprintable-consistent", format!("{ename}: has_unprintable({l:?}) == rendering changed ({changed})"), format!("{hp}")));
             }
             res.outcome.push(("C11", hash64(&(ename, plain, t.len().min(12)))));
